@@ -182,7 +182,9 @@ def oracle_case(ctx, orng, x, src, curve, kv, kd, check_vals, check_degs):
                 exercised_d += ex
                 for (k, cd, vs) in bad[:1]:
                     cls = irsem.node_class(x[2], k[0])
-                    if diverged:
+                    if diverged and irsem.reads_phi_dependent(x[2], k[0]):
+                        # the control path depends on the valuation AND the node's value depends on a merge:
+                        # the class of the known finding; any other wrong claim in such a program is reported
                         cls.add("ctl-merge")
                     failing.append({"input": src, "curve": curve, "budget": [kv, kd], "classes": sorted(cls),
                                     "impl": "claims degree range %s at node %s" % (sexp.show(cd), k),
@@ -324,7 +326,7 @@ def run(ctx, proofs, budgets, check_vals=True, check_degs=True, n_quick=500, n_t
         escalated = escalate(ctx, H, orng, disagreements, unjustified, check_vals, check_degs)
         failing += escalated["failing"]
     return {"hyp": hyp, "hyp_bad": hyp_bad, "escalated": None if escalated is None else {k: v for k, v in escalated.items() if k != "failing"}, "cc_seen": cc_seen, "cc_missing": cc_missing, "disagreements": disagreements, "failing": failing, "unjustified": unjustified, "validated": len(valid),
-            "dvalidated": sum(1 for o in dvalid.values() if o == "(justified)"), "dskipped_arrays": sum(1 for o in dvalid.values() if o == "(arrays)"), "status": status, "claims": claims,
+            "dvalidated": sum(1 for o in dvalid.values() if o == "(justified)"), "darrays": sum(1 for k, o in dvalid.items() if o == "(justified)" and any(t in impl[k] for t in ("(access ", "(update ", "(array "))), "status": status, "claims": claims,
             "nontrivial": len(nontrivial), "evaluations": evaluations, "programs": len(progs),
             "exercised_value_claims": exercised_v, "exercised_degree_claims": exercised_d,
             "samples": [progs[0][1], progs[len(progs) // 2][1]], "origins": {o: sum(1 for q in progs if q[2].split("/")[0] == o) for o in ("corpus", "targeted", "random")}}
@@ -389,8 +391,8 @@ def verdict(ctx, proofs, r, kinds, known_classes, extra_cov=None):
         "degree_claims_checked_by_finite_differences": r["exercised_degree_claims"],
         "graphs_validated_by_vjust_cfg": r["validated"],
         "graphs_rejected_by_a_validator": len(r["unjustified"]),
-        "array_free_graphs_validated_by_djust_cfg": r["dvalidated"],
-        "graphs_with_arrays_skipped_by_djust_cfg": r["dskipped_arrays"],
+        "graphs_validated_by_djust_cfg": r["dvalidated"],
+        "graphs_with_array_forms_among_them": r["darrays"],
         "disagreements_model_vs_impl": len(r["disagreements"]),
         "input_origins": r["origins"],
     }
